@@ -67,7 +67,7 @@ def sh(cmd, cwd=None, timeout=600, env=None, stdin=None, check=False):
     return p.returncode, p.stdout, p.stderr
 
 
-def run_lines(cmd, ops, timeout=1200, shell=False):
+def run_lines(cmd, ops, timeout=1200, shell=False, max_crashes=20):
     """feed op lines to a line-per-op executor; when it dies, record a CRASH for the op in flight and restart after it"""
     out, crashes, start = [], 0, 0
     while start < len(ops):
@@ -81,7 +81,7 @@ def run_lines(cmd, ops, timeout=1200, shell=False):
             out.append("CRASH rc=%s %s" % (rc, se[:200].replace("\n", " | ")))
             start += 1
             crashes += 1
-            if crashes > 20:
+            if crashes > max_crashes:
                 out += ["CRASH (not run)"] * (len(ops) - start)
                 break
     return out
